@@ -1,5 +1,6 @@
-//! pvc-uint: checks C15, C20 and the poulpy-bin-fhe part of the cross-cutting property C12.  usage: pvc-uint <Cxx> --tier quick|thorough [--replay f] [--only family]
+//! pvc-uint: checks C15, C20 and the poulpy-bin-fhe parts of the cross-cutting properties C10 and C12.  usage: pvc-uint <Cxx> --tier quick|thorough [--replay f] [--only family]
 
+pub mod c10uint;
 pub mod c12uint;
 pub mod c15;
 pub mod c15b;
@@ -37,6 +38,7 @@ fn main() {
         }};
     }
     let code = match args.property.as_str() {
+        "C10" => part!("exploration", c10uint::run, c10uint::replay),
         "C12" => part!("exploration", c12uint::run, c12uint::replay),
         "C15" => check!("model_checking", c15::run, c15::replay),
         "C20" => check!("model_checking", c20::run, c20::replay),
